@@ -145,6 +145,33 @@ class Layer:
         """Parent-side post-processing hook (may add keys to the evidence of the layer)."""
 
 
+
+def guarded(describe):
+    """Decorator for per-case check functions: an exception that escapes from COMA code (a frame under the tree under test)
+    is a violation of the case ("component raised"), not a harness error.  `describe(*args)` rebuilds the JSON case."""
+    def deco(fn):
+        def wrapper(*args, **kw):
+            try:
+                return fn(*args, **kw)
+            except Exception as e:
+                tb = traceback.extract_tb(e.__traceback__)
+                frames = [fr for fr in tb if os.path.abspath(fr.filename).startswith(REPO + os.sep)]
+                if not frames:
+                    raise
+                where = '%s:%d' % (os.path.relpath(frames[-1].filename, REPO), frames[-1].lineno)
+                sym = 'exception:' + type(e).__name__
+                detail = '%s: %s @ %s' % (type(e).__name__, str(e)[:300], where)
+                acc = next((a for a in args if isinstance(a, Acc)), None)
+                if acc is not None:
+                    acc.evals += 1
+                    acc.classes['exception-in-code-under-test'] += 1
+                    acc.viol(sym, describe(*args, **kw), detail, where, {})
+                return [(sym, detail, where, {})]
+        wrapper.__wrapped__ = fn
+        return wrapper
+    return deco
+
+
 _LAYERS: list = []
 
 
